@@ -81,6 +81,33 @@ func (h OwnHistory) Pattern() string {
 	return s
 }
 
+// OwnRestrict keeps the histories that use only the named operations (comma separated); the
+// result is closed under subsequences. Debugging / mutant-demonstration aid.
+func OwnRestrict(hs []OwnHistory, ops string) []OwnHistory {
+	if ops == "" {
+		return hs
+	}
+	allowed := map[int]bool{}
+	for _, n := range strings.Fields(ops) {
+		k := OwnOpIndex(n)
+		if k < 0 {
+			panic("OwnRestrict: unknown operation " + n)
+		}
+		allowed[k] = true
+	}
+	var out []OwnHistory
+next:
+	for _, h := range hs {
+		for _, o := range h.Ops {
+			if !allowed[o] {
+				continue next
+			}
+		}
+		out = append(out, h)
+	}
+	return out
+}
+
 // OwnHistories enumerates every history with 1 <= len <= maxLen, shortest first, lexicographic.
 func OwnHistories(maxLen int, seeded bool) []OwnHistory {
 	var out []OwnHistory
@@ -203,7 +230,7 @@ func zzObs(p, q *zzT, s, t []*zzT, m map[int32]*zzT, i interface{}, f func() int
 	}
 	for _, c := range str {
 		print(";")
-		print(int32(c))
+		print(int64(c))
 	}
 	print(" v")
 	print(v.id)
